@@ -411,12 +411,46 @@ func TestC09_Calls(t *testing.T) {
 				invalid = true
 			case 20:
 				name = "DKG constructors"
-				n, th, me, d := hostileInt(g, "size", 254), hostileInt(g, "thr", 2), hostileInt(g, "me", 3), hostileInt(g, "dealer", 3)
+				// a valid argument tuple in which a generated subset of the arguments is replaced by a hostile value, so that
+				// single faults (one index out of range, everything else fine) are as frequent as all-hostile tuples
+				n := []int{2, 3, 4, 5, 10, 100, 253, 254}[g.Pick("sizeOK", 8)]
+				th, me, d := g.Int("thrOK", 1, n-1), g.Int("meOK", 0, n-1), g.Int("dealerOK", 0, n-1)
+				mask := g.Int("hostileArgs", 0, 15)
+				if mask&1 != 0 {
+					n = hostileInt(g, "size", 254)
+				}
+				if mask&2 != 0 {
+					th = hostileInt(g, "thr", n)
+				}
+				if mask&4 != 0 {
+					me = hostileInt(g, "me", n)
+				}
+				if mask&8 != 0 {
+					d = hostileInt(g, "dealer", n)
+				}
 				g.Journal(fmt.Sprintf("%s(%d,%d,%d,%d)", name, n, th, me, d))
-				_, e1 := crypto.NewFeldmanVSS(n, th, me, nopProc{}, d)
-				_, e2 := crypto.NewFeldmanVSSQual(n, th, me, nopProc{}, d)
-				_, e3 := crypto.NewJointFeldman(n, th, me, nopProc{})
-				invalid = e1 != nil || e2 != nil || e3 != nil
+				i1, e1 := crypto.NewFeldmanVSS(n, th, me, nopProc{}, d)
+				i2, e2 := crypto.NewFeldmanVSSQual(n, th, me, nopProc{}, d)
+				i3, e3 := crypto.NewJointFeldman(n, th, me, nopProc{})
+				// documented: (nil, InvalidInputsError) iff size ∉ [DKGMinSize, DKGMaxSize], threshold ∉ [MinimumThreshold, size-1],
+				// myIndex ∉ [0, size-1] or dealerIndex ∉ [0, size-1]
+				badCommon := n < crypto.DKGMinSize || n > crypto.DKGMaxSize || th < crypto.MinimumThreshold || th > n-1 || me < 0 || me > n-1
+				badDealer := badCommon || d < 0 || d > n-1
+				chk := func(what string, inst crypto.DKGState, err error, bad bool) {
+					if bad && (inst != nil || !crypto.IsInvalidInputsError(err)) {
+						g.Fatalf("%s(size=%d, threshold=%d, myIndex=%d, dealer=%d) returned (%v, %v), an invalid-inputs error is documented", what, n, th, me, d, inst != nil, err)
+					}
+					if !bad && (inst == nil || err != nil) {
+						g.Fatalf("%s(size=%d, threshold=%d, myIndex=%d, dealer=%d) with valid arguments returned (%v, %v)", what, n, th, me, d, inst != nil, err)
+					}
+					if !bad && inst.Running() {
+						g.Fatalf("%s: a new instance reports Running()", what)
+					}
+				}
+				chk("NewFeldmanVSS", i1, e1, badDealer)
+				chk("NewFeldmanVSSQual", i2, e2, badDealer)
+				chk("NewJointFeldman", i3, e3, badCommon)
+				invalid = badDealer
 			case 21:
 				name = "String"
 				a := hostileAlgo(g, "algo")
